@@ -30,6 +30,7 @@ import (
 	"github.com/nginx/nginx-gateway-fabric/internal/mode/static/nginx/config/policies"
 	"github.com/nginx/nginx-gateway-fabric/internal/mode/static/state/dataplane"
 	"github.com/nginx/nginx-gateway-fabric/internal/mode/static/state/graph"
+	"github.com/nginx/nginx-gateway-fabric/verifharness/c02"
 	p "github.com/nginx/nginx-gateway-fabric/verifharness/pipeline"
 )
 
@@ -702,6 +703,8 @@ type Line struct {
 	PrepErr  *bool  `json:"prepErr,omitempty"`  // the reload result the REAL handler passed to status preparation
 	FailKind string `json:"failKind,omitempty"` // why reloadErr (the truth) is set: apply-failed | stale-after-plus-endpoints-only-update
 	H        *HInfo `json:"h,omitempty"`        // batch history so far (input + observations for the Lean handler model)
+	// fragment stream only (see fragment.go): the flat scenario, input of PipelineStatusTie.toFragmentV
+	Flat *c02.Flat `json:"flat,omitempty"`
 	Tags      map[string]int `json:"tags,omitempty"`
 }
 
